@@ -18,7 +18,7 @@ Next == UNCHANGED c
 RECURSIVE Flat(_, _)
 Flat(P, lh) == IF lh = <<>> THEN <<>>
                ELSE LET m == lh[Len(lh)]
-                        merged == SetToSeq(MergedBy(P, m))
+                        merged == SetToSeq(MergedByF(P, m))
                     IN <<Row(m, <<Len(lh)>>, 0)>> \o [k \in DOMAIN merged |-> Row(merged[k], <<0, 1, merged[k]>>, 1)]
                        \o Flat(P, SubSeq(lh, 1, Len(lh) - 1))
 Closures(P) == {TouchClosure(P, T) : T \in SUBSET DOMAIN P}
@@ -35,7 +35,7 @@ LawsHoldOnSpec ==
        /\ main(fwd) = RevSeq(main(rows))
        /\ ReverseByDepth(fwd) = rows
        /\ RebaseDepth(fwd) = fwd /\ Forward(rows) = fwd
-       /\ \A k \in DOMAIN lh : \A x \in MergedBy(P, lh[k]) :
+       /\ \A k \in DOMAIN lh : \A x \in MergedByF(P, lh[k]) :
              /\ pos(fwd, x) > pos(fwd, lh[k])
              /\ (k < Len(lh) => pos(fwd, x) < pos(fwd, lh[k + 1]))
        /\ RangeRevs(P, c.t, 1, Len(lh)) = Anc0(P, c.t)
@@ -44,7 +44,7 @@ LawsHoldOnSpec ==
                  v == VerOf(P, C)
              IN /\ TouchClosure(P, C) = C /\ v = VerOf(P, T)
                 /\ \A r \in DOMAIN P : (v[r] = r) = (r \in C)
-                /\ \A r \in DOMAIN P : v[r] # Null => v[r] \in C \cap Ancestry(P, r)
+                /\ \A r \in DOMAIN P : v[r] # Null => v[r] \in C \cap Anc0(P, r)
                 /\ \A m \in SeqRange(lh) \cap C : \E k \in DOMAIN FileMainline(P, c.t, v) : FileMainline(P, c.t, v)[k] = m
 WitnessNestedMerge == ~(\E r \in Anc0(c.par, c.t) \ LeftSet(c.par, c.t) : IsMerge(c.par, r))
 WitnessCarriedOver == ~(\E T \in SUBSET DOMAIN c.par : \E m \in LeftSet(c.par, c.t) \ TouchClosure(c.par, T) :
